@@ -198,7 +198,7 @@ Qed.
 Definition ex_src (tok addr rid role : N) : src := {| s_tok := tok; s_addr := addr; s_rid := rid; s_role := role |}.
 Definition ex_attr (tok lp : N) : attrs :=
   {| a_tok := tok; a_lp := Some lp; a_segs := Some [(2, 2)]; a_origin := Some 0; a_clen := None;
-     a_oid := None; a_llgr := false; a_nollgr := false; a_mm := None |}.
+     a_oid := None; a_llgr := false; a_nollgr := false; a_mm := None; a_orig := tok |}.
 Definition ex_ops : list op :=
   [ Insert (ex_src 1 1 9 0) 1 0 (Some 1) (ex_attr 100 200) false false None;
     Insert (ex_src 2 2 5 2) 1 0 (Some 2) (ex_attr 101 100) false false None;
